@@ -159,6 +159,12 @@ def gen_project(rnd, idx):
                           "// ünïcödé prefix\npub fn %s() { let ñ = \"é\" ; ; ) }\n" % nm])
         files.append((rnd.choice(["broken.rs", "a/broken.rs", "zz_broken.rs", "0_broken.rs"]), bad))
         feats.add("unparsable-neighbour")
+    if idx % 4 == 1:
+        # a .rs file that is not even text the tool can decode (a legacy-encoded file left in the tree): the same kind of neighbour
+        nm = fresh("latin")
+        decoys[nm] = "unparsable-file"
+        files.append((rnd.choice(["legacy_encoding.rs", "a/old_latin1.rs", "00_first.rs"]), "\0latin1:// r\xe9sum\xe9 of the caf\xe9 module\n#[tauri::command]\npub fn %s() {}\n" % nm))
+        feats.add("undecodable-neighbour")
     if rnd.random() < 0.2:
         files.append(("empty.rs", ""))
         feats.add("empty-file")
